@@ -194,6 +194,18 @@ impl VarIntEncoder {
 
 // LEB128 implementations
 impl VarIntEncoder {
+    /// Reject an element count that the remaining input cannot possibly hold.
+    ///
+    /// All sequence formats spend at least one byte per element, so a count larger than
+    /// the number of remaining bytes is malformed. Checking this before `Vec::with_capacity`
+    /// keeps a crafted length prefix from requesting an arbitrarily large allocation.
+    fn check_sequence_count(count: u64, remaining_bytes: usize) -> Result<()> {
+        if count > remaining_bytes as u64 {
+            return Err(ZiporaError::invalid_data("Sequence count exceeds remaining input"));
+        }
+        Ok(())
+    }
+
     fn encode_leb128_u64(&self, mut value: u64) -> Result<Vec<u8>> {
         let mut result = Vec::new();
         
@@ -324,6 +336,9 @@ impl VarIntEncoder {
         let (count, count_bytes) = self.decode_leb128_u64(&data[offset..])?;
         offset += count_bytes;
         
+        // Every element occupies at least one byte: a larger count cannot be honoured and
+        // must not drive the allocation below.
+        Self::check_sequence_count(count, data.len() - offset)?;
         let mut result = Vec::with_capacity(count as usize);
         
         // Read values
@@ -343,6 +358,9 @@ impl VarIntEncoder {
         let (count, count_bytes) = self.decode_leb128_u64(&data[offset..])?;
         offset += count_bytes;
         
+        // Every element occupies at least one byte: a larger count cannot be honoured and
+        // must not drive the allocation below.
+        Self::check_sequence_count(count, data.len() - offset)?;
         let mut result = Vec::with_capacity(count as usize);
         
         // Read values
@@ -454,6 +472,9 @@ impl VarIntEncoder {
             return Ok(Vec::new());
         }
         
+        // Every element occupies at least one byte: a larger count cannot be honoured and
+        // must not drive the allocation below.
+        Self::check_sequence_count(count, data.len() - offset)?;
         let mut result = Vec::with_capacity(count as usize);
         
         // Read first value
@@ -492,6 +513,9 @@ impl VarIntEncoder {
             return Ok(Vec::new());
         }
         
+        // Every element occupies at least one byte: a larger count cannot be honoured and
+        // must not drive the allocation below.
+        Self::check_sequence_count(count, data.len() - offset)?;
         let mut result = Vec::with_capacity(count as usize);
         
         // Read first value
@@ -564,6 +588,9 @@ impl VarIntEncoder {
         let (count, count_bytes) = self.decode_leb128_u64(&data[offset..])?;
         offset += count_bytes;
         
+        // Every element occupies at least one byte: a larger count cannot be honoured and
+        // must not drive the allocation below.
+        Self::check_sequence_count(count, data.len() - offset)?;
         let mut result = Vec::with_capacity(count as usize);
         let mut remaining = count;
         
@@ -686,6 +713,9 @@ impl VarIntEncoder {
         let (count, count_bytes) = self.decode_leb128_u64(&data[offset..])?;
         offset += count_bytes;
         
+        // Every element occupies at least one byte: a larger count cannot be honoured and
+        // must not drive the allocation below.
+        Self::check_sequence_count(count, data.len() - offset)?;
         let mut result = Vec::with_capacity(count as usize);
         
         // Read values
@@ -705,6 +735,9 @@ impl VarIntEncoder {
         let (count, count_bytes) = self.decode_leb128_u64(&data[offset..])?;
         offset += count_bytes;
         
+        // Every element occupies at least one byte: a larger count cannot be honoured and
+        // must not drive the allocation below.
+        Self::check_sequence_count(count, data.len() - offset)?;
         let mut result = Vec::with_capacity(count as usize);
         
         // Read values
